@@ -269,6 +269,55 @@ def run_airports(case):
         shutil.rmtree(tmp, ignore_errors=True)
 
 
+def _spell(text, sp):
+    return {'lower': text.lower(), 'upper': text.upper(), 'mixed': text[0].upper() + text[1:].lower() if len(text) > 1 else text.upper()}[sp]
+
+
+def run_casefold(case):
+    """One CaseFolding.tla case on a real CIBaseModel with a CIStrEnum field."""
+    warnings.simplefilter('ignore')
+    try:
+        from pydantic import ValidationError
+
+        from AEIC.utils.models import CIBaseModel, CIStrEnum
+
+        if 'Level' not in _cf:
+            class Level(CIStrEnum):
+                LOW = 'low'
+                HIGH = 'high'
+
+            class Model(CIBaseModel):
+                alpha: int
+                beta: Level = Level.LOW
+
+            _cf['Level'], _cf['Model'] = Level, Model
+        Model = _cf['Model']
+        data = {}
+        for p in case['m']:
+            key = _spell(p['name'], p['sp'])
+            data.pop(key, None)   # a mapping keeps insertion order: naming a key again puts it last
+            data[key] = _spell(p['e'], p['esp']) if p['name'] == 'beta' else p['v']
+        want = case['r']
+        # (two pairs with the same name AND spelling are one key of the mapping: the later value replaces the earlier)
+        try:
+            mobj = Model.model_validate(data)
+            got = {'refused': False, 'alpha': int(mobj.alpha), 'beta': str(mobj.beta)}
+            if mobj.beta.value != got['beta'] or type(mobj.beta).__name__ != 'Level':
+                got['beta'] = f'{mobj.beta!r}'
+        except ValidationError:
+            got = {'refused': True, 'alpha': 0, 'beta': '-'}
+        if got != want:
+            return [('casefold:model', f'mapping {data} gave {got}; specification: {want} (pairs {case["m"]})')]
+        return []
+    except Exception as e:
+        import traceback
+
+        return [('machinery', f'{type(e).__name__}: {e}\n{traceback.format_exc()}')]
+
+
+_cf: dict = {}
+
+
 def run_phases(hist):
     """One TrajectoryPhases.tla behaviour on a real Trajectory (the walk continues on copies)."""
     warnings.simplefilter('ignore')
@@ -669,4 +718,20 @@ def run_x08(ctx: Ctx):
     ctx.extra['negative_control'] = 'a recorded trace whose last sliced hour is falsified is rejected'
 
 
-EXTRAS = {'X08': run_x08, 'X07': run_x07, 'X01': run_x01, 'X02': run_x02, 'X03': run_x03, 'X04': run_x04, 'X05': run_x05, 'X06': run_x06}
+def run_x09(ctx: Ctx):
+    ctx.rule = 'every CaseFolding.tla case: a mapping of 0..2 (name, value) pairs over 3 names x 3 spellings (one name no field of the model) with enumeration texts in 3 spellings (one text no member) (1 561), validated by a real CIBaseModel with a CIStrEnum field'
+    ctx.assumptions += ['not a listed property: specification growth (DESIGN.md section 10)']
+    cs = tlc.check(ctx, 'extras/CaseFolding', 'extras/MC_CaseFolding.cfg', workers=2)['emitted']
+    ctx.exhaustive = True
+    ctx.log(f'casefold: {len(cs)} cases')
+    for c, devs in zip(cs, pmap(run_casefold, cs)):
+        ctx.case_done(('casefold', c['m']), nontrivial=len(c['m']) > 1)
+        if len(c['m']) == 2:
+            ctx.sample(c, limit=1)
+        for key, desc in devs:
+            if key == 'machinery':
+                raise MachineryError('casefold worker failed: ' + desc)
+            ctx.violation(key, desc, c)
+
+
+EXTRAS = {'X09': run_x09, 'X08': run_x08, 'X07': run_x07, 'X01': run_x01, 'X02': run_x02, 'X03': run_x03, 'X04': run_x04, 'X05': run_x05, 'X06': run_x06}
